@@ -84,6 +84,12 @@ z3.RecAddDefinition(sfirst, [_l], z3.If(SList.is_Nil(SList.init(_l)), SList.last
 z3.RecAddDefinition(srest, [_l], z3.If(SList.is_Nil(_l), SList.Nil,
                                        z3.If(SList.is_Nil(SList.init(_l)), SList.Nil, SList.Snoc(srest(SList.init(_l)), SList.last(_l)))))
 
+# i-th item (from the front) of a snoc list; arbitrary outside 0 <= i < slen
+snth = z3.RecFunction("snth", SList, I, SExp)
+_ix = z3.Const("_ix", I)
+z3.RecAddDefinition(snth, [_l, _ix], z3.If(SList.is_Nil(_l), SExp.Atom(sv("")),
+                                           z3.If(_ix == slen(SList.init(_l)), SList.last(_l), snth(SList.init(_l), _ix))))
+
 # ---- expression-tree semantics ---------------------------------------------------------------------
 # val(tree, stored) : value of a tree under the current stored_value array of PDDLFunction objects
 _t = z3.Const("_t", Tree)
@@ -155,6 +161,7 @@ SPEC_FUNCS = {
     "wf_slist": (wf_slist, ["slist"], "bool"),
     "ssize": (ssize, ["sexp"], "int"),
     "slen": (slen, ["slist"], "int"),
+    "snth": (snth, ["slist", "int"], "sexp"),
     "sfirst": (sfirst, ["slist"], "sexp"),
     "srest": (srest, ["slist"], "slist"),
     "wf_arith": (wf_arith, ["tree"], "bool"),
